@@ -19,7 +19,8 @@ from . import algebra, coords
 from .algebra import rat, angle_of, result_kind
 
 mpf = mpmath.mpf
-SKIP_OPS = {"abs", "square", "np_sqrt", "np_cbrt", "np_power", "neg", "divide"}     # operator / ufunc forms: C05, C11
+SKIP_OPS = {"abs", "square", "np_sqrt", "np_cbrt", "np_power", "neg", "divide", "scale2D", "scale3D", "neg2D", "neg3D",
+            "transform2D_partial", "transform3D_partial"}     # operator / ufunc forms: C05, C11
 
 
 def hsh(*parts):
